@@ -980,6 +980,12 @@ func (e *Engine) loopEnter(s *State, fn *ssa.Function, l *loop) {
 		ih[k] = v
 	}
 	s.IterHeap = ih
+	// and the locals at that moment, for iterstart(local)
+	il := make(map[*ssa.Alloc]*cell, len(s.Locals))
+	for k, v := range s.Locals {
+		il[k] = v
+	}
+	s.IterLocals = il
 	if dec != nil {
 		m := e.evalTerm(s, e.specCtx(s, fn), dec.Expr)
 		mm := e.define(s, "measure", "Int", m)
